@@ -153,9 +153,84 @@ func c16Move(ts []int64, lo int, window, bt time.Duration, netExtra int, syncFro
 		label, int64(window), int64(bt), lo, local, head.H, head.T, maxGap, minGap, syncFromHeight, r1, r2, tl, hd, gs, youngestGone)
 }
 
+// a gossiped header the Syncer REFUSES (its height is already known) must not drive pruning: with a started
+// Syncer (verifier registered) and a settled tail, the refused delivery leaves Tail and every stored header alone.
+func c16KnownGossip(n int, window, dt time.Duration, at int) {
+	ctx := context.Background()
+	now := time.Now().UnixNano()
+	t0 := now - int64(5*time.Second) - int64(n-1)*int64(time.Second)
+	chain := vhdr.Chain("A", n, t0, int64(time.Second), 0)
+	st := newStoreWith(chain, 1, n-1)
+	defer st.Stop(ctx) //nolint:errcheck
+	g := &scriptGetter{chain: chain}
+	s, sub := newSyncer(g, st, hsync.WithPruningWindow(window), hsync.WithBlockTime(time.Second),
+		hsync.WithRecencyThreshold(10*time.Hour), hsync.WithTrustingPeriod(100*time.Hour))
+	sctx, cancel := context.WithTimeout(ctx, 3*time.Second)
+	err := s.Start(sctx)
+	cancel()
+	if err != nil {
+		emit("C16 kind=knowngossip n=%d window=%d dt=%d at=%d => start=err verdict=- tail0=0 tail1=0 gone=-", n, int64(window), int64(dt), at)
+		return
+	}
+	defer s.Stop(ctx) //nolint:errcheck
+	settle := func() uint64 {
+		last, stable := uint64(0), 0
+		for i := 0; i < 300 && stable < 15; i++ {
+			time.Sleep(2 * time.Millisecond)
+			_ = st.Sync(ctx)
+			tl := uint64(0)
+			if t, err := st.Tail(ctx); err == nil {
+				tl = t.H
+			}
+			if tl == last {
+				stable++
+			} else {
+				last, stable = tl, 0
+			}
+		}
+		return last
+	}
+	hctx, cancel2 := context.WithTimeout(ctx, 2*time.Second)
+	_, _ = s.Head(hctx)
+	cancel2()
+	if sub.verifier != nil {
+		// the newest header arrives by gossip: accepted, and pruning is triggered lazily by it
+		actx, cancelA := context.WithTimeout(ctx, 2*time.Second)
+		_ = sub.verifier(actx, chain[n-1])
+		cancelA()
+	}
+	tail0 := settle()
+	c := chain[at-1]
+	hd := &vhdr.Header{Chain: c.Chain, H: c.H, T: chain[n-1].T + int64(dt), Prev: c.Prev, Salt: 7}
+	verdict := "refuse"
+	vctx, cancel3 := context.WithTimeout(ctx, 2*time.Second)
+	if sub.verifier == nil {
+		verdict = "noverifier"
+	} else if err := sub.verifier(vctx, hd); err == nil {
+		verdict = "accept"
+	}
+	cancel3()
+	tail1 := settle()
+	var gone []string
+	for h := int(tail0); h <= n && h >= 1; h++ {
+		if _, err := st.GetByHeight(cancelled, uint64(h)); err != nil {
+			gone = append(gone, itoa(h))
+		}
+	}
+	gs := strings.Join(gone, ",")
+	if gs == "" {
+		gs = "-"
+	}
+	emit("C16 kind=knowngossip n=%d window=%d dt=%d at=%d => start=ok verdict=%s tail0=%d tail1=%d gone=%s",
+		n, int64(window), int64(dt), at, verdict, tail0, tail1, gs)
+}
+
 func runC16(tier string, r *rng) {
 	sec, hour := time.Second, time.Hour
 	now := time.Now().UnixNano()
+	for _, k := range [][4]int{{100, 50, 30, 100}, {100, 50, 49, 100}, {100, 50, 10, 90}, {60, 20, 15, 60}, {100, 50, 30, 60}} {
+		c16KnownGossip(k[0], time.Duration(k[1])*sec, time.Duration(k[2])*sec, k[3])
+	}
 	// 1a: parameter grid accepted by Validate (trustingPeriod != 0; blockTime unconstrained, default 0)
 	for _, tp := range []time.Duration{sec, hour, 336 * hour, -hour} {
 		for _, bt := range []time.Duration{0, 1, sec, 6 * sec, hour, 400 * hour, -sec} {
